@@ -7,7 +7,7 @@
 (* allocation-hostile inputs.  Each evaluation is emitted with the         *)
 (* specification's answer and replayed on the compiled crate.              *)
 (***************************************************************************)
-EXTENDS Calls, Emit
+EXTENDS Corpus, Emit
 
 Alphabet == <<0, 1, 2, 3, 4, 10, 20, 22, 23, 24, 127, 255>>
 Strings == <<<<>>>> \o [a \in 1..12 |-> <<Alphabet[a]>>]
@@ -76,8 +76,12 @@ Hostile ==
   \o [k \in 1..3 |-> [fn |-> "tls_parser_many", a |-> NoArgs,
                       parts |-> [j \in 1..<<10, 500, 2000>>[k] |-> Lit(<<20, 3, 3, 0, 1, 1>>)]]]
 NH == Len(Hostile)
+(* valid but unusual values (Corpus.tla): decoded like any other, and formatted without incident *)
+ASSUME TLCSet(5, CxCases)
+Unusual == TLCGet(5)
+NU == Len(Unusual)
 
-N == NF * NS + NH
+N == NF * NS + NH + NU
 VARIABLE i
 Init == i = Chunk + 1 /\ i <= N
 Next == i + NChunks <= N /\ i' = i + NChunks
@@ -85,11 +89,12 @@ Next == i + NChunks <= N /\ i' = i + NChunks
 CaseOf(j) ==
   IF j <= NF * NS
   THEN LET fn == Fns[((j - 1) \div NS) + 1]  s == Strings[((j - 1) % NS) + 1] IN [fn |-> fn, a |-> ArgsFor(fn, s), parts |-> <<Lit(s)>>]
-  ELSE Hostile[j - NF * NS]
+  ELSE IF j <= NF * NS + NH THEN Hostile[j - NF * NS]
+  ELSE Unusual[j - NF * NS - NH]
 
 (* totality: the specification answers every input with one of the four outcome classes *)
 Total ==
   LET c == CaseOf(i)  r == Apply(c.fn, c.a, Flatten(c.parts)) IN
   /\ r.k \in {"ok", "inc", "err", "fail"}
-  /\ EmitLine(CaseLine(i, c.fn, c.a, c.parts, r, IF i > NF * NS THEN "full" ELSE "none", [kind |-> IF i > NF * NS THEN "hostile" ELSE "short"]))
+  /\ EmitLine(CaseLine(i, c.fn, c.a, c.parts, r, IF i > NF * NS THEN "full" ELSE "none", [kind |-> IF i > NF * NS + NH THEN "unusual" ELSE IF i > NF * NS THEN "hostile" ELSE "short"]))
 =============================================================================
